@@ -86,7 +86,7 @@ class Three:
 
     KEYS = ("postal_code", "county_fips", "county_classification", "district")
 
-    def __init__(self, h, estimand, with_pred=True, alphas=(), extra=()):
+    def __init__(self, h, estimand, with_pred=True, alphas=(), extra=(), int_extra=()):
         self.h = h
         root, fips = frames.unit_universe("units")
         self.root, self.fips = root, fips
@@ -106,8 +106,9 @@ class Three:
         h.ctx.assume(z3.Implies(fips(root.u) == fips(root.u2), root.u == root.u2))
         e = estimand
         self.e = e
-        self.res = fn(f"results_{e}", R_)(u)
-        self.last = fn(f"last_{e}", R_)(u)
+        # V2: vote counts are whole numbers -> Int-sorted columns (margins are differences of counts: Int as well)
+        self.res = fn(f"results_{e}", I)(u)
+        self.last = fn(f"last_{e}", I)(u)
         self.keys = {k: fn(k, S)(u) for k in self.KEYS}
         self.knullT = {k: fn(f"null_{k}_third", B)(u) for k in self.KEYS if k != "postal_code"}
         self.category = fn("unit_category_third", S)(u)
@@ -122,6 +123,8 @@ class Three:
                 c[f"last_election_results_{e}"] = self.last
             for x in extra:
                 c[x] = fn(x, R_)(u)
+            for x in int_extra:
+                c[x] = fn(x, I)(u)
             return c
 
         self.rep = frames.base_frame(root, self.R, cols("R"), "geographic_unit_fips")
@@ -129,7 +132,7 @@ class Three:
         self.third = frames.base_frame(root, self.T, cols("T"), "geographic_unit_fips")
         # V2: counts are non-negative whole numbers; previous result + 1 >= 1
         if e != "margin":
-            h.ctx.assume(z3.And(self.res >= 0, z3.IsInt(self.res), self.last >= 1, z3.IsInt(self.last)))
+            h.ctx.assume(z3.And(self.res >= 0, self.last >= 1))
 
     def gsum(self, which, keys, term, extra_dom=None):
         """Σ over the rows of frame `which` whose key tuple equals the generic group of `keys` (spec side)."""
